@@ -3,9 +3,15 @@ use super::{
     sat_solver::{SolvingListener, SolvingResult},
     Literal, SatSolver,
 };
+#[cfg(not(all(crustabri_verif, crustabri_verif_proc)))]
 use std::{
     io::{Read, Write},
     process::{Command, Stdio},
+};
+#[cfg(all(crustabri_verif, crustabri_verif_proc))]
+use {
+    std::io::{Read, Write},
+    verif_seams::process::{Command, Stdio},
 };
 
 /// A SAT solver which execution is made by a system command.
@@ -74,6 +80,9 @@ impl SatSolver for ExternalSatSolver {
 }
 
 fn exec_solver(mut reader: DimacsInstanceRead, program: &str, options: &[String]) -> Box<dyn Read> {
+    // verification seam: with the guard on, `std::thread` below resolves to the simulated threads
+    #[cfg(all(crustabri_verif, crustabri_verif_proc))]
+    use verif_seams as std;
     let mut child = Command::new(program)
         .args(options)
         .stdin(Stdio::piped())
